@@ -42,8 +42,9 @@ FLAVOURS = {
     # the project's Debug flavour (-DDEBUG=true: CBOR_ASSERT and the code under #ifdef DEBUG are compiled in) at -O0 ...
     'plainO0': (['-O0', '-g', '-gdwarf-4', '-DDEBUG=true', '-fPIC'], ['-O2', '-g', '-gdwarf-4', '-DSIM_FLAVOUR_PLAIN'], [], True),
     # size-optimised release build in the newest C dialect the compiler offers: what `CMAKE_BUILD_TYPE=MinSizeRel` with a compiler that
-    # passes the project's [[nodiscard]] probe produces (__OPTIMIZE_SIZE__ defined, __STDC_VERSION__ >= 201112L); every check runs a slice on it
-    'plainOs': (['-Os', '-g', '-gdwarf-4', '-DNDEBUG', '-fPIC', '-std=c2x'], ['-O2', '-g', '-gdwarf-4', '-DSIM_FLAVOUR_PLAIN'], [], True, 'gcc'),   # and with the other compiler: the library objects of this flavour are gcc's
+    # passes the project's [[nodiscard]] probe produces (__OPTIMIZE_SIZE__ defined, __STDC_VERSION__ >= 201112L), for the x86-64-v2 instruction-set level distributions now build for
+    # (__POPCNT__, __SSE4_2__ ... defined); every check runs a slice on it
+    'plainOs': (['-Os', '-g', '-gdwarf-4', '-DNDEBUG', '-fPIC', '-std=c2x', '-march=x86-64-v2'], ['-O2', '-g', '-gdwarf-4', '-DSIM_FLAVOUR_PLAIN'], [], True, 'gcc'),   # and with the other compiler: the library objects of this flavour are gcc's
     # ... and under ThreadSanitizer; plainO2 is the release flavour (-DNDEBUG)
     'tsan': (['-O1', '-g', '-fno-omit-frame-pointer', '-fsanitize=thread', '-DDEBUG=true'], ['-O2', '-g', '-DSIM_FLAVOUR_TSAN'], ['-fsanitize=thread'], False),
 }
